@@ -12,6 +12,7 @@ import (
 	"sort"
 	"strconv"
 	"strings"
+	"syscall"
 	"time"
 
 	"github.com/datastax/cql-proxy/parser"
@@ -50,6 +51,8 @@ type c06 struct {
 	evals    int
 	samples  int
 	maxDepth int
+	hung     int         // classifications that did not return
+	timer    *time.Timer // reused by classify
 }
 
 func (k *c06) flush() {
@@ -61,27 +64,98 @@ func (k *c06) flush() {
 	k.evals = 0
 }
 
-// classify calls the function under test; a panic is turned into a violation naming the input class.
+// classify calls the function under test; a panic is turned into a violation naming the input class, and so is a call
+// that does not come back ("classification terminates"): the call runs on its own goroutine and is given 30 s plus 1 s per
+// 100 kB of input (statements of this size are classified in micro- to milliseconds); the wait is extended while the whole
+// process got less than 10 s of CPU time meanwhile (a starved machine), at most three times - then it is inconclusive.
+// After two such inputs the shard stops classifying (every one leaves a goroutine spinning).
 func (k *c06) classify(text, class string, scenario map[string]interface{}) (ok bool, err error, panicked bool) {
-	defer func() {
-		if p := recover(); p != nil {
-			panicked = true
-			msg := regexp.MustCompile(`\d+`).ReplaceAllString(fmt.Sprint(p), "N")
-			if len(msg) > 80 {
-				msg = msg[:80]
-			}
-			k.r.Violate(mon.Violation{Signature: "C06/panic/" + class + "/" + msg, Detail: fmt.Sprintf("IsQueryIdempotent panicked (%v) on a %s input: %q", p, class, clip(text, 400)),
-				Scenario: scenario, Witness: map[string]interface{}{"input": clip(text, 4000), "panic": fmt.Sprint(p)}})
-		}
-	}()
+	if k.hung >= 2 {
+		return false, nil, true
+	}
+	type res struct {
+		ok  bool
+		err error
+		p   interface{}
+	}
+	ch := make(chan res, 1)
 	k.evals++
-	ok, err = parser.IsQueryIdempotent(text)
+	go func() {
+		var rs res
+		defer func() {
+			if p := recover(); p != nil {
+				rs.p = p
+			}
+			ch <- rs
+		}()
+		rs.ok, rs.err = parser.IsQueryIdempotent(text)
+	}()
+	var rs res
+	select {
+	case rs = <-ch:
+	default:
+		budget := 30*time.Second + time.Duration(len(text)/100000)*time.Second
+		if k.timer == nil {
+			k.timer = time.NewTimer(budget)
+		} else {
+			k.timer.Reset(budget)
+		}
+		cpu0 := processCPU()
+		back := false
+		for ext := 0; ext < 4 && !back; ext++ {
+			select {
+			case rs = <-ch:
+				back = true
+			case <-k.timer.C:
+				if processCPU()-cpu0 >= 10*time.Second {
+					ext = 4
+				} else {
+					k.timer.Reset(budget)
+				}
+			}
+		}
+		if !back {
+			k.hung++
+			if processCPU()-cpu0 < 10*time.Second {
+				k.r.Inconc(fmt.Sprintf("c06: a classification did not return, but the process got only %s of CPU time while waiting: %q", processCPU()-cpu0, clip(text, 200)))
+				return false, nil, true
+			}
+			k.r.Violate(mon.Violation{Signature: "C06/does-not-terminate/" + class, Detail: fmt.Sprintf("IsQueryIdempotent did not return within %s (the process used %s of CPU time meanwhile) on a %s input of %d bytes: %q", budget, processCPU()-cpu0, class, len(text), clip(text, 400)),
+				Scenario: scenario, Witness: map[string]interface{}{"input": clip(text, 4000)}})
+			return false, nil, true
+		}
+		if !k.timer.Stop() {
+			select {
+			case <-k.timer.C:
+			default:
+			}
+		}
+	}
+	if rs.p != nil {
+		msg := regexp.MustCompile(`\d+`).ReplaceAllString(fmt.Sprint(rs.p), "N")
+		if len(msg) > 80 {
+			msg = msg[:80]
+		}
+		k.r.Violate(mon.Violation{Signature: "C06/panic/" + class + "/" + msg, Detail: fmt.Sprintf("IsQueryIdempotent panicked (%v) on a %s input: %q", rs.p, class, clip(text, 400)),
+			Scenario: scenario, Witness: map[string]interface{}{"input": clip(text, 4000), "panic": fmt.Sprint(rs.p)}})
+		return false, nil, true
+	}
+	ok, err = rs.ok, rs.err
 	if ok && err != nil && class != "diagnosis" {
 		// "anything it cannot parse is reported not idempotent": an error return is the classifier's own statement that it could not
 		k.r.Violate(mon.Violation{Signature: "C06/error-with-idempotent-verdict/" + slug(err), Detail: fmt.Sprintf("IsQueryIdempotent returned (true, %v) on a %s input: %q", err, class, clip(text, 400)),
 			Scenario: scenario, Witness: map[string]interface{}{"input": clip(text, 4000), "error": err.Error()}})
 	}
 	return ok, err, false
+}
+
+// processCPU is the CPU time (user + system) this process has used so far.
+func processCPU() time.Duration {
+	var ru syscall.Rusage
+	if syscall.Getrusage(syscall.RUSAGE_SELF, &ru) != nil {
+		return 0
+	}
+	return time.Duration(ru.Utime.Nano() + ru.Stime.Nano())
 }
 
 func clip(s string, n int) string {
